@@ -6,9 +6,12 @@ STORE_FILES = ["modeling/mesh.go", "modeling/tri.go", "modeling/line.go", "model
 
 CFG = dict(
     gen=[dict(tool="facts", mode="c01.stores", out="C01Stores.lean", args=STORE_FILES)],
+    modules=["PolyVerif.Props.C01", "PolyVerif.Props.C01Refine"],
     theorems=["op_frame", "op_writes_fresh_only", "step_immutable", "history_immutable",
-              "derivations_commute_partial", "appendInPlace_breaks", "store_sites_fresh"],
-    helper_theorems=["step_valid", "run_valid", "empty_valid", "appliesInOrder_spec", "store_sites_cover"],
+              "derivations_commute_partial", "appendInPlace_breaks", "store_sites_fresh",
+              "op_refines", "append_refines", "run_bounded", "derivations_commute", "derivations_commute_reachable"],
+    helper_theorems=["step_valid", "run_valid", "empty_valid", "appliesInOrder_spec", "store_sites_cover",
+                     "step_bounded", "empty_bounded", "pureOp_mono"],
     streams=[dict(name="c01", n=dict(quick=300, thorough=6000))],
     trusted=T_COMMON + [
         "engine F extractor /verif/go/facts/c01.go (syntactic, intra-procedural provenance of store targets; conservative by construction; "
@@ -20,9 +23,11 @@ CFG = dict(
     ],
     residue=[
         "formats/gltf writer is outside the static store-site scan (it is a stateful Writer storing into its own buffers); it is covered by the value-level oracle only",
-        "derivations_commute_full (Props/C01.lean, stated as a def): that the value an operation returns does not depend on the heap layout "
-        "(hence on whether another derivation ran first) is NOT proved; proved part = derivations_commute_partial (no interference); "
-        "the rest is checked on the implementation by the c01.holds.rederive oracle and the value-level c01.append correspondence",
+        "op_refines / derivations_commute hold for states satisfying the bounds invariant State.Bounded (every slice inside its array); "
+        "run_bounded shows it is an invariant from the empty state; over merely Valid states (slices past the end of their array) the "
+        "commutation statement derivations_commute_full is not claimed",
+        "the pure meaning pureOp of the eleven non-Append classes takes the new contents as parameters of the operation (it says WHICH parts "
+        "are kept, replaced or deleted, not how meshops compute the new contents: that is C03)",
         "caller-owned slices/maps handed to NewMesh/Set*/SetFloatNData and the slice returned by Materials() are the caller's to leave alone (the harness never mutates them)",
         "concurrent use of one mesh from several goroutines is outside this property",
         "that each Go function belongs to the class it is modelled by is corresponded (sharing graph + value snapshots on generated histories), not proved from the Go source",
@@ -38,16 +43,20 @@ CFG = dict(
              "function into its class, which is CORRESPONDED through the observed sharing graph and value snapshots, not proved from the Go "
              "source), history_immutable (for every finite history of operations picking arguments anywhere in the pool - branching "
              "derivations included - and every growth policy of append, every mesh keeps the observation it had when it entered), "
-             "derivations_commute_partial (no interference in either order), appendInPlace_breaks (closed witness of the old in-place Append), "
+             "op_refines (every operation returns meshes whose observable value is a PURE function pureOp of the observable values of its "
+             "arguments - for Append the transcribed loops are proved equal to pureAppend: concatenation, zero padding, index shift - whatever "
+             "the heap layout, spare capacities and growth policy), run_bounded (bounds invariant), derivations_commute / "
+             "derivations_commute_reachable (two derivations from one base give the same two observations in either order), "
+             "appendInPlace_breaks (closed witness of the old in-place Append), "
              "plus the obligation store_sites_fresh, re-derived from the source on every run by a store-site extractor, that every store in "
              "the mesh code (mesh.go, tri/line/point.go, meshops, repeat, primitives, ply/obj/stl writers) targets memory allocated in the "
              "same call (decide over the regenerated site list). Tied to the code by (a) the regenerated store-site facts, (b) a heap-shape "
              "correspondence (reflect-observed sharing graph of arguments and result of every operation vs the model's prediction), (c) value "
              "snapshots of every live mesh after every operation and every mid-history primitive construction of generated histories, "
-             "(d) a bit-exact value correspondence of the model's appendCopy with Mesh.Append.",
+             "(d) a bit-exact value correspondence of the model's appendCopy AND of pureAppend with Mesh.Append.",
         note="Trusted: Lean kernel and the three standard axioms; the syntactic store-site extractor; the assignment of Go functions to "
-             "operation classes (corresponded, not proved); reflect/unsafe observation; harness. Not proved: derivations_commute_full "
-             "(layout independence of results; oracle c01.holds.rederive and the c01.append value correspondence instead); op_refines. "
+             "operation classes (corresponded, not proved); reflect/unsafe observation; harness. The commutation theorem is for bounded states "
+             "(invariant from the empty state), not for arbitrary Valid ones. "
              "formats/gltf writer outside the static scan (value oracle only).",
         technique="Lean 4 proof (induction over operation histories on a heap model) + regenerated store-site obligations + heap-shape "
                   "and value correspondence",
